@@ -276,10 +276,33 @@ def judge(ck, case, q, real, use_model, qk):
                     if case["blat"][i] == case["qlat"][k] and case["blon"][i] == case["qlon"][k]}
             nfar = 1
         else:
-            for q0, dm, _ in oracle_chunks(case, metric, R, max(1, 1000000 // max(n, 1))):
-                ii, kk = np.nonzero(dm < rk - margin)
-                must.update(zip(ii.tolist(), (kk + q0).tolist()))
-                nfar += int((dm > rk + margin).sum())
+            if n * m <= 200000:
+                for q0, dm, _ in oracle_chunks(case, metric, R, max(1, 1000000 // max(n, 1))):
+                    ii, kk = np.nonzero(dm < rk - margin)
+                    must.update(zip(ii.tolist(), (kk + q0).tolist()))
+                    nfar += int((dm > rk + margin).sum())
+            else:
+                # large case: double precision sweep, extended precision only in a band around the threshold
+                ub = unit_vectors(case["blat"], case["blon"]).astype(float)
+                uq = unit_vectors(case["qlat"], case["qlon"]).astype(float)
+                thr, band = float(rk - margin), 1e-6 * float(rk) + 1e-9
+                step = max(1, 4000000 // max(n, 1))
+                for q0 in range(0, m, step):
+                    v = uq[q0:q0 + step]
+                    dmm = np.sqrt(((ub[:, None, :] - v[None, :, :]) ** 2).sum(-1))
+                    if metric == "haversine":
+                        dpp = np.sqrt(((ub[:, None, :] + v[None, :, :]) ** 2).sum(-1))
+                        d64 = 2 * np.arctan2(dmm, dpp) * R / 1000.0
+                    else:
+                        d64 = dmm * R / 1000.0
+                    ii, kk = np.nonzero(d64 < thr - band)
+                    must.update(zip(ii.tolist(), (kk + q0).tolist()))
+                    ii, kk = np.nonzero(np.abs(d64 - thr) <= band)
+                    unsure = list(zip(ii.tolist(), (kk + q0).tolist()))
+                    if unsure:
+                        dl, _ = pair_distances(case, unsure, metric, R)
+                        must.update(pr for pr, d in zip(unsure, dl) if d < rk - margin)
+                    nfar += int((d64 > float(rk + margin) + band).sum())
         gs = set(got)
         nontriv = len(must) > 0 and nfar > 0
         ck.case(key=json.dumps([case["blat"][:6], case["qlat"][:3], str(q["r"]), case.get("perm"), case["seed"], qk]) if nontriv else None,
